@@ -99,6 +99,10 @@ func demuxPartial(b []byte) (data []byte, msgs []string, complete bool) {
 }
 
 // talk runs one scripted session. role: "pull" (we receive), "push" (we upload uplName with uplData)
+// talkRequests, when set, replaces the requests a pulling talk() sends after the file list (default: every regular
+// file, without block checksums)
+var talkRequests func(es []refEntry, sorted []string) []byte
+
 func talk(addr, greeting, moduleLine string, argLines []string, role string, o refOpts, withDelete bool, uplName string, uplData []byte) talkResult {
 	var res talkResult
 	c, err := net.DialTimeout("tcp", addr, 5*time.Second)
@@ -211,6 +215,10 @@ func talk(addr, greeting, moduleLine string, argLines []string, role string, o r
 		sorted := append([]string{}, names...)
 		sort.Strings(sorted)
 		w.Reset()
+		if talkRequests != nil {
+			w.Write(talkRequests(es, sorted))
+			sorted = nil
+		}
 		for i, n := range sorted {
 			for _, e := range es {
 				if string(e.name) == n && e.mode&sIFMT == sIFREG {
@@ -523,6 +531,56 @@ func suiteDaemon(h *H) {
 			}
 			h.emit(fmt.Sprintf("!daemon-xmod seed=%d round=%d module=%s", h.seed, round, module), res.class, v, true)
 			h.stat("daemon.xmod")
+		}
+	}
+	// requests a well-behaved client never sends, after transfers of *other* modules over the same daemon: block
+	// checksums for every kind of entry (a directory, a symlink: the sender can open but not read them) and for regular
+	// files. Whatever the sender answers — an error, literal data — carries nothing of another module's files.
+	{
+		deltaReq := func(kinds func(e refEntry) bool) func(es []refEntry, sorted []string) []byte {
+			return func(es []refEntry, sorted []string) []byte {
+				var w bytes.Buffer
+				for i, n := range sorted {
+					for _, e := range es {
+						if string(e.name) == n && kinds(e) {
+							wI32(&w, int32(i))
+							for _, v := range []int32{1, 700, 2, 0} {
+								wI32(&w, v)
+							}
+							w.Write([]byte{1, 2, 3, 4, 5, 6}) // one block: weak sum, two bytes of strong sum
+							break
+						}
+					}
+				}
+				wI32(&w, -1)
+				wI32(&w, -1)
+				wI32(&w, -1)
+				return w.Bytes()
+			}
+		}
+		tagOf := func(m string) string { return (m + "__")[:2] }
+		for round, pair := range [][2]string{{"rw", "ro"}, {"ro", "m"}, {"m", "mx"}, {"mx", "rw"}} {
+			first, second := pair[0], pair[1]
+			talkRequests = deltaReq(func(e refEntry) bool { return e.mode&sIFMT == sIFREG })
+			talk(addr, "@RSYNCD: 27", first, []string{"--server", "--sender", "-rl", ".", first + "/"}, "pull", refOpts{links: true}, false, "", nil)
+			talkRequests = deltaReq(func(e refEntry) bool { return e.mode&sIFMT != sIFREG })
+			line := fmt.Sprintf("!daemon-xreq seed=%d round=%d after=%s module=%s", h.seed, round, first, second)
+			h.begin(line)
+			res := talk(addr, "@RSYNCD: 27", second, []string{"--server", "--sender", "-rl", ".", second + "/"}, "pull", refOpts{links: true}, false, "", nil)
+			talkRequests = nil
+			v := leak(res.raw)
+			for _, other := range []string{"ro", "rw", "m", "mx"} {
+				if other == second || v != "" {
+					continue
+				}
+				for _, stem := range []string{"inside-a-", "inside-inner-", "inside-x-"} {
+					if bytes.Contains(res.raw, []byte(stem+tagOf(other))) {
+						v = fmt.Sprintf("FAIL[C06] the daemon's answer to a request for module %s contains the content of module %s's file (%q)", second, other, stem+tagOf(other))
+					}
+				}
+			}
+			h.emit(line, res.class, v, true)
+			h.stat("daemon.xreq")
 		}
 	}
 	// module names that are prefixes of one another, and the prefix trimming
